@@ -240,7 +240,7 @@ func genHeadSeq(r *Rand) *HeadSeqIn {
 	next := func() uint64 { exec += uint64(r.Range(1, 9)); return exec }
 	fail := AnswerIn{Kind: "err"}
 	n := r.Range(2, 6)
-	switch k := r.Intn(16); {
+	switch k := r.Intn(17); {
 	case k < 3: // the node fails once, then serves the block
 		for i := 0; i < n; i++ {
 			in.Script = append(in.Script, genBlockAnswer(r, next()))
@@ -260,7 +260,7 @@ func genHeadSeq(r *Rand) *HeadSeqIn {
 				in.Script = append(in.Script, genBlockAnswer(r, next()))
 			}
 		}
-	case k < 9: // every call gets the same answer
+	case k < 10: // every call gets the same answer
 		a := fail
 		if r.Chance(2, 3) {
 			a = genBlockAnswer(r, next())
@@ -481,6 +481,115 @@ func genDynamicSeq(r *Rand) *DynamicSeqIn {
 	if r.Chance(1, 2) {
 		in.HasFallback = true
 		in.Fallback = genFetchScript(r)
+	}
+	return in
+}
+
+// =============================================================================================
+// Path 1 as a session: one proposer service, several proposals, the collaborators answering
+// proposal by proposal.
+
+type ProposeSeqIn struct {
+	Ops []*ProposeIn `json:"ops"`
+}
+
+func runProposeSeq(t *testing.T, in *ProposeSeqIn) result {
+	if len(in.Ops) == 0 {
+		t.Fatalf("a propose session needs at least one proposal")
+	}
+	panics, msgs, logs := runProposeOps(t, in.Ops)
+	res := result{}
+	recs := make([]string, len(in.Ops))
+	var obs []string
+	var details []any
+	seen := map[string]bool{}
+	for k, op := range in.Ops {
+		var lg *p1log
+		var panicked bool
+		var msg string
+		if k < len(logs) {
+			lg, panicked, msg = logs[k], panics[k], msgs[k]
+		} else {
+			lg = &p1log{}
+		}
+		r, rec, tr := proposeResult(op, lg, panicked, msg)
+		recs[k] = rec
+		if k < len(logs) {
+			obs = append(obs, Pair(Bool(panicked), tr))
+			details = append(details, r.obs.Detail)
+			if panicked {
+				res.obs.Panic, res.obs.Message = true, msg
+			}
+		}
+		res.nontrivial = res.nontrivial || r.nontrivial
+		for _, c := range r.counts {
+			if !seen[c] {
+				seen[c] = true
+				res.counts = append(res.counts, c)
+			}
+		}
+		for _, tag := range r.tags {
+			if !seen["tag:"+tag] {
+				seen["tag:"+tag] = true
+				res.tags = append(res.tags, tag)
+			}
+		}
+	}
+	res.inTerm = App("IProposeSeq", List(recs))
+	res.obsTerm = App("OProposeSeq", List(obs))
+	res.obs.Detail = map[string]any{"proposals": details}
+	res.counts = append(res.counts, fmt.Sprintf("proposals:%d", len(in.Ops)))
+	return res
+}
+
+// genProposeSeq: proposals that differ in everything the collaborators answer; what exists at
+// construction (a graffiti provider, an auctioneer, a node that can name itself, unblind-from-all)
+// is that of the first.
+func genProposeSeq(r *Rand) *ProposeSeqIn {
+	base := genPropose(r)
+	in := &ProposeSeqIn{Ops: []*ProposeIn{base}}
+	named := base.NodeClient == "err" || base.NodeClient == "name"
+	for k, n := 1, r.Range(2, 4); k < n; k++ {
+		op := genPropose(r)
+		switch {
+		case base.Graffiti == "none":
+			op.Graffiti, op.GraffitiData = "none", nil
+		case op.Graffiti == "none":
+			op.Graffiti = "err"
+		}
+		switch {
+		case base.Auction == "none":
+			op.Auction, op.Providers, op.AllProviders = "none", nil, nil
+		case op.Auction == "none":
+			op.Auction = "err"
+		}
+		switch {
+		case !named:
+			op.NodeClient, op.ClientName = "not", nil
+		case op.NodeClient != "err" && op.NodeClient != "name":
+			op.NodeClient = "err"
+		}
+		op.UnblindAll = base.UnblindAll
+		op.Trace = base.Trace
+		in.Ops = append(in.Ops, op)
+	}
+	// family: what a proposal could take over from the one before -- an auction with relays that can
+	// unblind and a fetched, signed proposal, then a proposal whose auction (or proposal fetch) fails
+	if base.Auction != "none" && r.Chance(1, 2) {
+		k := r.Range(1, len(in.Ops)-1)
+		prev, op := in.Ops[k-1], in.Ops[k]
+		prev.Auction = "res"
+		prev.AllProviders = []ProvIn{{ID: 1, Unblinds: true}, {ID: 2, Unblinds: r.Bool()}}
+		prev.Providers = prev.AllProviders[:1]
+		prev.Proposal = &ProposalIn{Version: uint64(r.Range(3, 5)), Blinded: true, Present: true, SlotOK: true}
+		prev.SignOK, prev.UnblindOK = true, true
+		if r.Bool() {
+			op.Auction, op.Providers, op.AllProviders = "err", nil, nil
+			op.Proposal = &ProposalIn{Version: uint64(r.Range(3, 5)), Blinded: true, Present: true, SlotOK: true}
+			op.SignOK = true
+		} else {
+			op.Proposal = nil
+		}
 	}
 	return in
 }
